@@ -297,3 +297,187 @@ func concreteBox(v ssa.Value, seen map[ssa.Value]bool) bool {
 	}
 	return false
 }
+
+// ---------------------------------------------------------------------------------------
+// BOXVAL — a reflect.Value is a handle, not data (C10). Boxing one into an interface{} that is
+// returned by a library function or stored into a result container puts an internal type into
+// the value Eval returns (it marshals as {}).
+
+func runBOXVAL(c *Ctx, r *Result, rule string, fns []*ssa.Function, reach *Reach) int {
+	n := 0
+	for _, f := range fns {
+		ord := 0
+		for _, ins := range instrsIn(f) {
+			mi, ok := ins.(*ssa.MakeInterface)
+			if !ok || !isReflectValue(mi.X.Type()) {
+				continue
+			}
+			if _, isEmpty := mi.Type().Underlying().(*types.Interface); !isEmpty {
+				continue
+			}
+			ord++
+			n++
+			o := Obligation{Rule: rule, Key: fmt.Sprintf("%s:box-reflect.Value#%d", shortFn(f), ord), Fn: shortFn(f), Pos: c.W.Pos(mi.Pos()), Nontrivial: true}
+			bad := ""
+			seen := map[ssa.Value]bool{}
+			var flow func(v ssa.Value)
+			flow = func(v ssa.Value) {
+				if seen[v] || bad != "" {
+					return
+				}
+				seen[v] = true
+				refs := v.Referrers()
+				if refs == nil {
+					return
+				}
+				for _, rf := range *refs {
+					switch u := rf.(type) {
+					case *ssa.Return:
+						bad = "returned as an interface{} result"
+					case *ssa.Phi:
+						flow(u)
+					case *ssa.MapUpdate:
+						if u.Value == v {
+							bad = "stored as a map member"
+						}
+					case *ssa.Store:
+						if ia, isIA := u.Addr.(*ssa.IndexAddr); isIA && u.Val == v {
+							// elements of the implicit argument array of a variadic call (fmt.Errorf ...) are not data
+							if al, isAl := ia.X.(*ssa.Alloc); isAl && al.Comment == "varargs" {
+								continue
+							}
+							bad = "stored as an element of a slice or array"
+						}
+					case *ssa.Call:
+						if bi, isB := u.Call.Value.(*ssa.Builtin); isB && bi.Name() == "append" {
+							for _, a := range u.Call.Args[1:] {
+								if a == v {
+									bad = "appended to a result slice"
+								}
+							}
+						}
+					}
+				}
+			}
+			flow(mi)
+			if bad == "" {
+				o.Verdict, o.Reason = Discharged, "the boxed reflect.Value is only handed to a library call (formatting, reflect.ValueOf), not returned or stored as data"
+			} else {
+				o.Verdict, o.Reason = Finding, "a reflect.Value is boxed into an interface{} and "+bad+": the handle, an internal type, becomes part of the result instead of the value it refers to (missing .Interface())"
+				if reach != nil {
+					o.Path = reach.Path(f)
+				}
+			}
+			r.Add(o)
+		}
+	}
+	return n
+}
+
+// ---------------------------------------------------------------------------------------
+// ZERO — a zero value synthesised for a missing argument (C09). reflect.Zero(t) handed to a Go
+// built-in stands for "no value"; that is only harmless for types whose zero value every
+// built-in tolerates: optional wrappers, reflect.Value (the zero Value is the evaluator's "no
+// value") and interface{}. A nil named interface (a nil jtypes.Callable) or a nil map/pointer
+// makes the first method call or write in the built-in panic. Every reflect.Zero under Eval must
+// therefore be reached, on every path, through one of: a true `isOpt` flag of the parameter, or
+// `t == G` for a type variable G denoting interface{} or reflect.Value.
+
+func runZERO(c *Ctx, r *Result, rule string, fns []*ssa.Function, reach *Reach) int {
+	e := &kindEngine{lenHelpers: map[*ssa.Function]kset{}, c: c, g: c.G, val: map[ssa.Value]kset{}, ret: map[*ssa.Function]kset{}, rval: map[ssa.Value]kset{}, rret: map[*ssa.Function]kset{}, extArgs: map[*ssa.Function]bool{}}
+	globals := c.reflectTypeGlobals()
+	const unverified = kInvalid // one bit of the lattice serves as the "no accepted test yet" flag
+	n := 0
+	for _, f := range fns {
+		ord := 0
+		for _, ins := range instrsIn(f) {
+			call, ok := ins.(*ssa.Call)
+			if !ok || staticName(call) != "reflect.Zero" {
+				continue
+			}
+			ord++
+			n++
+			t := call.Call.Args[0]
+			o := Obligation{Rule: rule, Key: fmt.Sprintf("%s:reflect.Zero#%d", shortFn(f), ord), Fn: shortFn(f), Pos: c.W.Pos(call.Pos()), Nontrivial: true}
+			// only zero values that are handed on as values matter; reflect.Zero(t).Interface()
+			// used to query a type's methods at registration time is not an argument
+			bndCtx = c
+			k := e.refine(ssa.Value(nil), call.Block(), 0, func(cond ssa.Value) (kset, kset, bool) {
+				switch x := cond.(type) {
+				case *ssa.UnOp:
+					// load of a boolean field named isOpt
+					if x.Op == token.MUL {
+						if fa, ok := x.X.(*ssa.FieldAddr); ok && fieldName(fa.X.Type(), fa.Field) == "isOpt" {
+							return kAny &^ unverified, kAny, true
+						}
+					}
+				case *ssa.BinOp:
+					if x.Op != token.EQL && x.Op != token.NEQ {
+						return 0, 0, false
+					}
+					for _, pr := range [][2]ssa.Value{{x.X, x.Y}, {x.Y, x.X}} {
+						if !sameTypeValue(pr[0], t) {
+							continue
+						}
+						if u, ok := pr[1].(*ssa.UnOp); ok && u.Op == token.MUL {
+							if g, ok := u.X.(*ssa.Global); ok {
+								if gt := globals[g]; gt != nil {
+									accepted := isReflectValue(gt)
+									if it, isI := gt.Underlying().(*types.Interface); isI && it.Empty() {
+										accepted = true
+									}
+									if accepted {
+										if x.Op == token.EQL {
+											return kAny &^ unverified, kAny, true
+										}
+										return kAny, kAny &^ unverified, true
+									}
+								}
+							}
+						}
+					}
+				}
+				return 0, 0, false
+			})
+			if k&unverified == 0 {
+				o.Verdict, o.Reason = Discharged, "every path to this reflect.Zero passes a true isOpt flag or a test that the type is interface{} or reflect.Value"
+			} else {
+				o.Verdict, o.Reason = Finding, "reflect.Zero of a type that has not been shown to be optional, interface{} or reflect.Value: a nil named interface, map or pointer handed to a built-in as a missing argument makes its first method call or write panic"
+				if reach != nil {
+					o.Path = reach.Path(f)
+				}
+			}
+			r.Add(o)
+		}
+	}
+	return n
+}
+
+// sameTypeValue: a and b are the same reflect.Type value (the same SSA value, or two loads of
+// the same field of the same parameter spill).
+func sameTypeValue(a, b ssa.Value) bool {
+	if a == b {
+		return true
+	}
+	if bndCtx != nil && bndCtx.canon(a) == bndCtx.canon(b) {
+		return true
+	}
+	// two loads of the same field of a parameter spilled at function entry
+	la, oka := a.(*ssa.UnOp)
+	lb, okb := b.(*ssa.UnOp)
+	if oka && okb && la.Op == token.MUL && lb.Op == token.MUL {
+		fa, ok1 := la.X.(*ssa.FieldAddr)
+		fb, ok2 := lb.X.(*ssa.FieldAddr)
+		if ok1 && ok2 && fa.X == fb.X && fa.Field == fb.Field {
+			if al, isAl := fa.X.(*ssa.Alloc); isAl && spillOnly(al) {
+				for _, rf := range *al.Referrers() {
+					if st, isSt := rf.(*ssa.Store); isSt && st.Addr == ssa.Value(al) {
+						_, fromParam := st.Val.(*ssa.Parameter)
+						return fromParam && st.Block() == al.Parent().Blocks[0]
+					}
+				}
+			}
+		}
+	}
+	return false
+}
